@@ -78,14 +78,19 @@ def main():
       "C03": " Every rejected claim that does not verify is also inspected in the handler's own state branch before that branch is discarded: it may not have written a single store entry.",
       "C06": " Schedules include deposits whose multi-message hook spends part of the deposit and then fails, and executors signing under the upper-case spelling of their address.",
       "C09": " Unusable recipients include the blocked fee collector holding bridged tokens of its own; a third of the chains never registers its bridge info.",
-      "C11": " The alphabet includes the predecessor's block number together with its very root at the next index.",
+      "C11": " The alphabet includes the predecessor's block number together with its very root at the next index; bridges imported with next output index 0 and 1 are proposed to.",
       "C12": " Every update is also probed in a form that changes nothing (names the current holder / repeats the stored value).",
       "C14": " Malformed registrations also reuse the proposal id of the pending plan.",
       "C16": " One L1 state holds 130 token pairs, 130 batch-info generations and 240 outputs, one L2 state 130 bridged denoms (more than a query page).",
       "C17": " Deposits of empty and unit amounts of ordinary, 128-character, look-alike ('l2/<64 hex>') and fresh denoms must announce and register the documented derived denom.",
       "C18": " While the concurrent replicas run, four more goroutines serve queries on chains of their own (about two million calls per quick run).",
-      "C19": " Lists of 31..90 channels and metadata whose winner depends on key order are included.",
-      "C20": " Contexts sit at heights 0, 1, 2, the current height and 2^40.",
+      "C19": " Lists of 31..90 channels and metadata whose winner depends on key order are included; in some operations the admin lookup fails underneath the hook.",
+      "C20": " Contexts sit at heights 0, 1, 2, the current height and 2^40; fresh deposits that bounce are fresh.",
+      "C04": " Hooks that fail after a withdrawal went through, and an L1 denom of the shape 'l2/<64 hex>', are included.",
+      "C05": " The creation lattice covers every batch chain type; deletion ranges starting at a final output are tried with 10..140 pending outputs behind it.",
+      "C07": " Failure texts longer than the reason limit in bytes but not in characters are included.",
+      "C13": " Operators are spelled in upper case in every third genesis list and add message; every fifth consensus key is secp256k1.",
+      "C15": " Forged entries also carry 0 or -1 in their own power field.",
     }
     for pid, extra in ADD.items():
         if pid in CHECKS and not CHECKS[pid]["text"].endswith(extra):
